@@ -23,7 +23,7 @@ COMPONENTS = {"real": ["pyjelly serializers of both integrations, TermEncoder, L
               "stub": ["reader and auditor: simkit.refdec", "baseline writer: simkit.refenc in naive mode"]}
 ASSUMPTIONS = ["literals differing only in plain vs explicit xsd:string are not generated (one RDF term, two Python "
                "values: whether eliding them is owed is arguable)"]
-PROBES = ["repeated_terms_used", "zero_entry_ids", "zero_prefix_ids", "zero_name_ids", "evictions", "no_evictions",
+PROBES = ["str_subclass_spellings", "repeated_terms_used", "zero_entry_ids", "zero_prefix_ids", "zero_name_ids", "evictions", "no_evictions",
           "graphs_from_sequence", "rdflib_streams", "generic_streams", "naive_compared"]
 SHRINK_LISTS = ["ops"]
 
@@ -40,6 +40,10 @@ def generate(rng, run, tier):
     plan = c03.generate(rng, run, tier)
     keep_xsd = plan["cfg"]["integration"] == "generic" and rng.random() < 0.1
     plan["keep_xsd_string"] = keep_xsd
+    if plan["cfg"]["integration"] == "generic" and rng.random() < 0.12:
+        # every second occurrence of an IRI / datatype / language tag / blank-node label arrives as a str
+        # subclass of the same text that compares and hashes like rdflib.URIRef does
+        plan["cfg"]["odd_str"] = True
     ops = []
     for o in plan["ops"]:
         if o[0] == "stmt" and not keep_xsd:
@@ -87,6 +91,8 @@ def execute(plan, sim):
     cfg = plan["cfg"]
     stmts, nss = nodes.split_ops(plan["ops"])
     sim.count(cfg["integration"] + "_streams")
+    if cfg.get("odd_str"):
+        sim.count("str_subclass_spellings")
     try:
         if plan.get("kind") == "grouped":
             from checks import c07
